@@ -30,6 +30,26 @@ var repoDir = "/repo"
 
 var replayTemplates = []*replayTemplate{
 	{
+		name: "wss_listen_nil_tlsconfig.go.tmpl",
+		match: func(o *Obligation) bool {
+			return o.Kind == "safe.nil" && o.Func == "(*transport/ws.listener).Listen"
+		},
+		run: func(g *Gen, o *Obligation, model map[string]string) (bool, string) {
+			// fixed input: OptionTLSConfig = (*tls.Config)(nil) on a wss listener, then Listen
+			return runReplay("transport/ws", "wss_listen_nil_tlsconfig.go.tmpl", map[string]string{}, "TestZZReplayWssListenNilTLSConfig")
+		},
+	},
+	{
+		name: "ws_address_after_failed_listen.go.tmpl",
+		match: func(o *Obligation) bool {
+			return o.Kind == "monitor" && o.Func == "(*transport/ws.listener).Listen" && strings.Contains(o.Name, "listener.minv1")
+		},
+		run: func(g *Gen, o *Obligation, model map[string]string) (bool, string) {
+			// fixed history: Listen on an unbindable address with port 0, then Address()
+			return runReplay("transport/ws", "ws_address_after_failed_listen.go.tmpl", map[string]string{}, "TestZZReplayAddressAfterFailedListen")
+		},
+	},
+	{
 		name: "dial_retry.go.tmpl",
 		match: func(o *Obligation) bool {
 			return o.Kind == "post" && (o.Func == "(*internal/core.dialer).dial" || o.Func == "(*internal/core.dialer).Dial") && strings.Contains(o.Note, "!d.active")
